@@ -141,11 +141,11 @@ func jobsFor(prop, tier string) []*Job {
 		for _, c := range cfgs {
 			add(&Job{Name: fmt.Sprintf("O1-window/N=%d,r=%gs,k=%d", c.N, float64(c.res)/1e9, c.k), Pkg: "memmetrics", Harness: "VerifC17Window",
 				Params: p("N", c.N, "k", c.k, "t0span", 4*c.N*7), Grid: c.res, TimeoutS: 120, MergeBlind: true,
-				Merge: map[string]bool{"(*github.com/vulcand/oxy/v2/memmetrics.RollingCounter).cleanup": true, "(*github.com/vulcand/oxy/v2/memmetrics.RollingCounter).incBucketValue": true},
+				Merge:  map[string]bool{"(*github.com/vulcand/oxy/v2/memmetrics.RollingCounter).cleanup": true, "(*github.com/vulcand/oxy/v2/memmetrics.RollingCounter).incBucketValue": true},
 				Bounds: fmt.Sprintf("fresh counter with %d buckets of %gs; %d operations chosen symbolically among Inc(v<2^20)/Count/Reset, each preceded by a symbolic advance of up to %d resolutions plus a sub-resolution remainder; start instant symbolic in a window of %d resolutions from 2001-01-01 (covers every residue of the slot number modulo N and of its Unix second modulo N)", c.N, float64(c.res)/1e9, c.k, 3*c.N+2, 28*c.N)})
 		}
 		add(&Job{Name: "O3-ratio/N=3,r=1s,k=2", Pkg: "memmetrics", Harness: "VerifC17Ratio", Params: p("N", 3, "k", 2, "t0span", 84), Grid: 1e9, TimeoutS: 120, MergeBlind: true,
-			Merge: map[string]bool{"(*github.com/vulcand/oxy/v2/memmetrics.RollingCounter).cleanup": true, "(*github.com/vulcand/oxy/v2/memmetrics.RollingCounter).incBucketValue": true},
+			Merge:  map[string]bool{"(*github.com/vulcand/oxy/v2/memmetrics.RollingCounter).cleanup": true, "(*github.com/vulcand/oxy/v2/memmetrics.RollingCounter).incBucketValue": true},
 			Bounds: "ratio counter with 3 buckets of 1s, 2 symbolic increments to A or B with symbolic advances"})
 	case "C05":
 		type cfg struct{ k, depth, parts int }
@@ -181,7 +181,7 @@ func jobsFor(prop, tier string) []*Job {
 		}
 		add(&Job{Name: fmt.Sprintf("O2-fraction/B=%d,dur=10s", B), Pkg: "cbreaker", Harness: "VerifC12Fraction", Params: p("B", B, "dur", 10000000000), IncKind: "cvc5", SkipInc: true, TimeoutS: 300,
 			Solvers: []string{"cvc5", "z3"}, Inductive: true,
-			Bounds:  fmt.Sprintf("recovery duration 10 s, counters symbolic in [0,2^%d), two symbolic instants el0<=el1<=duration; one decision step from any state satisfying the float-level invariant", B)})
+			Bounds: fmt.Sprintf("recovery duration 10 s, counters symbolic in [0,2^%d), two symbolic instants el0<=el1<=duration; one decision step from any state satisfying the float-level invariant", B)})
 	case "DBG":
 		add(&Job{Name: "dbg", Pkg: "utils", Harness: "VerifDbgResolve", IncKind: "cvc5"})
 	case "C19":
@@ -267,10 +267,20 @@ func jobsFor(prop, tier string) []*Job {
 		// the harness tree but not registered: 4 of its branch queries stay undecided at 120 s
 		// in every back end — see DESIGN.md section 9)
 		_ = nsrc
-		for pat := 0; pat < 7; pat++ { // bit i = source of request i (0 = A); pattern 7 has no request of A
-			add(&Job{Name: fmt.Sprintf("O1-lockstep/k=%d,pattern=%d", k, pat), Pkg: "ratelimit", Harness: "VerifC14LockStep", Grid: 1e9,
-				Params: p("k", k, "nsrc", 2, "capacity", 2, "average", 1, "burst", 2, "maxgap", 12, "t0span", 3, "srcpat", pat), TimeoutS: 120,
-				Bounds: fmt.Sprintf("self-composition in lock step through the real TokenLimiter (capacity 2, rate 1/s burst 2): %d requests whose sources follow bit pattern %d (bit i set = request i comes from B, else from A) with symbolic amounts 1..burst+1 and gaps up to 13 s (beyond the 11 s entry lifetime), against a second limiter that sees only A's requests at the same instants: same decisions, same status, same advertised delay", k, pat)})
+		lsRates := [][2]int{{1, 2}}
+		if thorough {
+			lsRates = append(lsRates, [2]int{2, 3})
+		}
+		for _, lr := range lsRates {
+			for pat := 0; pat < 7; pat++ { // bit i = source of request i (0 = A); pattern 7 has no request of A
+				name := fmt.Sprintf("O1-lockstep/k=%d,pattern=%d", k, pat)
+				if lr[0] != 1 {
+					name += fmt.Sprintf(",rate=%d/s,burst=%d", lr[0], lr[1])
+				}
+				add(&Job{Name: name, Pkg: "ratelimit", Harness: "VerifC14LockStep", Grid: 1e9,
+					Params: p("k", k, "nsrc", 2, "capacity", 2, "average", lr[0], "burst", lr[1], "maxgap", 12, "t0span", 3, "srcpat", pat), TimeoutS: 120,
+					Bounds: fmt.Sprintf("self-composition in lock step through the real TokenLimiter (capacity 2, rate %d/s burst %d): %d requests whose sources follow bit pattern %d (bit i set = request i comes from B, else from A) with symbolic amounts 1..burst+1 and gaps up to 13 s (beyond the 11 s entry lifetime), against a second limiter that sees only A's requests at the same instants: same decisions, same status, same advertised delay", lr[0], lr[1], k, pat)})
+			}
 		}
 	case "C06", "C07", "C15":
 		Ls := []int{0, 2, 5}
@@ -311,7 +321,7 @@ func jobsFor(prop, tier string) []*Job {
 			k = 3
 		}
 		add(&Job{Name: fmt.Sprintf("O2-metrics/k=%d", k), Pkg: "memmetrics", Harness: "VerifC18Metrics", Grid: 1e9, Params: p("k", k, "t0span", 40), TimeoutS: 120, MergeBlind: true,
-			Merge: map[string]bool{"(*github.com/vulcand/oxy/v2/memmetrics.RollingCounter).cleanup": true, "(*github.com/vulcand/oxy/v2/memmetrics.RollingCounter).incBucketValue": true},
+			Merge:  map[string]bool{"(*github.com/vulcand/oxy/v2/memmetrics.RollingCounter).cleanup": true, "(*github.com/vulcand/oxy/v2/memmetrics.RollingCounter).incBucketValue": true},
 			Bounds: fmt.Sprintf("%d Record calls with symbolic status codes in [100,599] at one instant (symbolic within a window covering every bucket residue), then the ratios and Reset", k)})
 		hb, hk := 3, 5
 		if thorough {
